@@ -12,7 +12,7 @@ import oracle
 
 LEVEL = 'exploration'
 
-BASE = 'clock x, y; hybrid clock hx; int i; bool b; double d = 0.5; const double KD = 2.5; broadcast chan bc; int ia[2]; '
+BASE = 'clock x, y; hybrid clock hx; int i; bool b; double d = 0.5; const double KD = 2.5; broadcast chan bc; int ia[2]; clock ca[2]; '
 UNUSED = ('<template><name>Unused</name><parameter>%s</parameter><declaration>%s</declaration><location id="u0"><name>U0</name>%s</location>'
           '<location id="u1"><name>U1</name></location><init ref="u0"/><transition><source ref="u0"/><target ref="u1"/>%s</transition></template>')
 
@@ -86,6 +86,18 @@ def build_cells():
     add('assignment-from-floating', 'update:template-local-clock', ['symbolic'], dict(tdecl='clock z; ', assign='z = 1.5'), dict(tdecl='clock z; ', assign='z = 2'))
     add('assignment-from-floating', 'update:second-edge', ['symbolic'], dict(assign='i = 1', extra_edges='<transition><source ref="id1"/><target ref="id0"/>%s</transition>' % lab('assignment', 'x = 1.5')),
         dict(assign='i = 1', extra_edges='<transition><source ref="id1"/><target ref="id0"/>%s</transition>' % lab('assignment', 'x = 2')))
+    # B2: the assignment sits in a branch of a conditional update, targets a clock array element, or sits in the body of a called function
+    for pn, fw, ft in [('inline-if-then', 'b ? (x = 1.5) : (x = 2)', 'b ? (x = 3) : (x = 2)'), ('inline-if-else', 'b ? (x = 2) : (x = 1.5)', 'b ? (x = 2) : (x = 3)'),
+                       ('inline-if-in-list', 'i = 1, (b ? x = 1.5 : x = 2)', 'i = 1, (b ? x = 3 : x = 2)'), ('nested-inline-if', 'b ? (x = 2) : (i == 0 ? (x = 1.5) : (y = 0))', 'b ? (x = 2) : (i == 0 ? (x = 3) : (y = 0))'),
+                       ('inline-if-double-variable', 'b ? (d = 1.5) : (i = 2)', 'b ? (i = 1) : (i = 2)'),
+                       ('clock-array-element', 'ca[0] = 1.5', 'ca[0] = 2'), ('clock-array-element-variable-index', 'ca[i] = KD', 'ca[i] = 2')]:
+        add('assignment-from-floating', 'update:' + pn, ['symbolic'], dict(assign=fw), dict(assign=ft))
+    for pn, where, fdecl, tdecl_ in [('global-function-clock', 'gpost', 'void wf() { x = 1.5; } ', 'void wf() { x = 2; } '),
+                                     ('global-function-double', 'gpost', 'void wf() { d = 1.5; } ', 'void wf() { i = 2; } '),
+                                     ('template-function-clock', 'tdecl', 'void wf() { x = 1.5; } ', 'void wf() { x = 2; } '),
+                                     ('function-call-chain', 'gpost', 'void w0() { x = 1.5; } void wf() { w0(); } ', 'void w0() { x = 2; } void wf() { w0(); } '),
+                                     ('function-conditional', 'gpost', 'void wf() { if (b) { x = KD; } } ', 'void wf() { if (b) { x = 2; } } ')]:
+        add('assignment-from-floating', 'function-body:' + pn, ['symbolic'], {where: fdecl, 'assign': 'wf()'}, {where: tdecl_, 'assign': 'wf()'})
     # C: clock initialised with a floating-point value
     for where in ('global', 'template'):
         for vn, fv in [('literal', '2.5'), ('const-double', 'KD'), ('expression', '1.0 + 1.5')]:
@@ -99,6 +111,15 @@ def build_cells():
                 else:
                     pre, post = ('', 'int tl; ') if place == 'first' else ('int tl; ', '')
                     add('clock-floating-initialiser', 'template:%s:%s' % (vn, place), ['symbolic'], dict(tdecl=pre + dW + post), dict(tdecl=pre + dT + post))
+    for where in ('global', 'template'):
+        for pn, dW, dT in [('clock-array', 'clock cb[2] = {1.5, 2.5}; ', 'clock cb[2] = {1, 2}; '), ('clock-array-second-element', 'clock cb[2] = {1, 2.5}; ', 'clock cb[2] = {1, 2}; '),
+                           ('clock-2d-array', 'clock cb[2][2] = {{1, 2}, {1.5, 2}}; ', 'clock cb[2][2] = {{1, 2}, {1, 2}}; '),
+                           ('struct-field', 'struct { clock c; int v; } sc = {1.5, 2}; ', 'struct { clock c; int v; } sc = {1, 2}; '),
+                           ('struct-second-field', 'struct { int v; clock c; } sc = {2, KD}; ', 'struct { int v; clock c; } sc = {2, 1}; '),
+                           ('array-of-struct', 'typedef struct { clock c; int v; } SC; SC sa[2] = {{1, 2}, {1.5, 2}}; ', 'typedef struct { clock c; int v; } SC; SC sa[2] = {{1, 2}, {1, 2}}; '),
+                           ('typedef-clock', 'typedef clock CK; CK c = 2.5; ', 'typedef clock CK; CK c = 2; '), ('hybrid-clock', 'hybrid clock hc = 2.5; ', 'hybrid clock hc = 2; '),
+                           ('second-of-list', 'clock c1 = 2, c = 2.5; ', 'clock c1 = 2, c = 2; ')]:
+            add('clock-floating-initialiser', '%s:%s' % (where, pn), ['symbolic'], dict(gpost=dW) if where == 'global' else dict(tdecl=dW), dict(gpost=dT) if where == 'global' else dict(tdecl=dT))
     # D: non-hybrid clock rate other than 0 or 1
     for rn, rv in [('2', '2'), ('7', '7'), ('0.5', '0.5'), ('2.0', '2.0'), ('minus-1', '-1')]:
         for order in ('rate-first', 'value-first'):
@@ -106,6 +127,16 @@ def build_cells():
             atomT = "x' == 1" if order == 'rate-first' else "1 == x'"
             for (pn, fw), (_, ft) in zip(conj_positions(atomW, ('x <= 5', 'i == 0', 'y <= 7')), conj_positions(atomT, ('x <= 5', 'i == 0', 'y <= 7'))):
                 add('clock-rate', 'invariant:%s:%s:%s' % (rn, order, pn), ['symbolic'], dict(inv=fw), dict(inv=ft))
+    for pn, fw, ft in [('array-element', "ca[0]' == 2", "ca[0]' == 1"), ('forall-body', "forall (k : int[0,1]) ca[k]' == 2", "forall (k : int[0,1]) ca[k]' == 1"),
+                       ('forall-body-in-conjunction', "x <= 5 && (forall (k : int[0,1]) ca[k]' == 2)", "x <= 5 && (forall (k : int[0,1]) ca[k]' == 1)"),
+                       ('conjunction-in-forall-body', "forall (k : int[0,1]) (ca[k] <= 5 && ca[k]' == 2)", "forall (k : int[0,1]) (ca[k] <= 5 && ca[k]' == 1)"),
+                       ('nested-forall', "forall (k : int[0,1]) forall (j : int[0,1]) ca[j]' == 2 + 0 * k", None),
+                       ('nested-forall-literal', "forall (k : int[0,1]) forall (j : int[0,1]) ca[j]' == 2", "forall (k : int[0,1]) forall (j : int[0,1]) ca[j]' == 1"),
+                       ('disjunct', "b || x' == 2", "b || x' == 1"), ('imply-consequent', "b imply x' == 2", "b imply x' == 1"),
+                       ('imply-in-forall', "forall (k : int[0,1]) (b imply ca[k]' == 0.5)", "forall (k : int[0,1]) (b imply ca[k]' == 0)")]:
+        if ft is None:
+            continue    # a rate given by a non-literal expression is outside the cells
+        add('clock-rate', 'invariant:' + pn, ['symbolic'], dict(inv=fw), dict(inv=ft))
     add('clock-rate', 'invariant:second-location', ['symbolic'], dict(inv2="y' == 3"), dict(inv2="y' == 0"))
     add('clock-rate', 'invariant:template-local-clock', ['symbolic'], dict(tdecl='clock z; ', inv="z' == 2"), dict(tdecl='clock z; ', inv="z' == 1"))
     # E: dynamic template declared
@@ -160,7 +191,9 @@ def unused_variants():
     return [('guard-floating', unused_template(guard='x < 1.5')), ('invariant-floating', unused_template(inv='x <= 1.5')),
             ('update-floating', unused_template(assign='x = 1.5')), ('rate', unused_template(inv="x' == 2")),
             ('local-clock-floating-initialiser', unused_template(decl='clock c = 2.5;')), ('local-channel', unused_template(decl='chan lc;')),
-            ('channel-parameter', unused_template(params='chan &pc')), ('three-features', unused_template(decl='chan lc; clock c = 2.5;', guard='x < 1.5 && i == 0', assign='x = 1.5, i = 1'))]
+            ('channel-parameter', unused_template(params='chan &pc')), ('rate-in-forall-body', unused_template(inv="forall (k : int[0,1]) ca[k]' == 2")),
+            ('local-clock-array-floating-initialiser', unused_template(decl='clock cb[2] = {1.5, 2.5};')), ('conditional-update-floating', unused_template(assign='b ? (x = 1.5) : (x = 2)')),
+            ('local-function-assigning-floating', unused_template(decl='void lf() { x = 1.5; }', assign='lf()')), ('three-features', unused_template(decl='chan lc; clock c = 2.5;', guard='x < 1.5 && i == 0', assign='x = 1.5, i = 1'))]
 
 
 RULE = ('cell enumeration: restricting feature x placement. clock compared with a floating value (guard and invariant; every '
@@ -168,9 +201,11 @@ RULE = ('cell enumeration: restricting feature x placement. clock compared with 
         'conjunct position of 1-, 2- and 3-conjunct formulas and a nested conjunction; clock difference; disjunction with a '
         'clock-free operand; forall body; second edge / second location; together with a rate; template-local clock), '
         'assignment of a clock or double variable from a floating value (every position of 1..3-element update lists, four value '
-        'shapes, second edge, template-local clock), clock initialised with a floating value (global / template-local, first / '
-        'last declaration), clock rate other than 0 or 1 (2, 7, 0.5, 2.0, -1; either operand order; every conjunct position; '
-        'second location; local clock), dynamic template declared (spawned or not, first or last), non-broadcast channel '
+        'shapes, second edge, template-local clock, branches of conditional updates, clock array elements, bodies of global and '
+        'template-local functions called from the update incl. a call chain), clock initialised with a floating value (global / '
+        'template-local, first / last declaration; clock arrays, 2-d arrays, record fields, arrays of records, typedef, hybrid, '
+        'second of a declaration list), clock rate other than 0 or 1 (2, 7, 0.5, 2.0, -1; either operand order; every conjunct position; '
+        'second location; local clock; clock array element; forall bodies incl. nested and with conjunctions; disjunct; implication consequent), dynamic template declared (spawned or not, first or last), non-broadcast channel '
         'declared (plain, urgent, array, 2-d array, typedef, in a declaration list; global first / last, template-local, used '
         'in a synchronisation, as a template parameter), channel and process priorities; every cell additionally with the template '
         'entering the system as an explicit instance, as a process set with a free parameter, through a partial instantiation '
@@ -179,7 +214,7 @@ RULE = ('cell enumeration: restricting feature x placement. clock compared with 
         'feature in an instantiated template the corresponding verdict must be false (symbolic / stochastic / concrete); the twin '
         'without the feature shows that the cell is attributable (a twin that is already false makes the cell vacuous: counted). '
         'Metamorphic: adding a never-instantiated template that contains a feature, and permuting independent global '
-        'declarations, leave the verdict unchanged (all cells x 8 unused templates in thorough, a stride in quick; Hypothesis '
+        'declarations, leave the verdict unchanged (all cells x 12 unused templates in thorough, a stride in quick; Hypothesis '
         'draws permutations). Non-trivial: the model is accepted and the twin verdict is true; distinct = (feature, placement).')
 
 
@@ -246,7 +281,7 @@ def worker(chk, wi, nw):
                        {'kind': 'pair', 'xml': items[meta.index((c, which, un))][0], 'base': assemble(c[which])})
 
     # declaration order: permute independent global declarations
-    DECLS = ['clock x, y;', 'hybrid clock hx;', 'int i;', 'bool b;', 'double d = 0.5;', 'const double KD = 2.5;', 'broadcast chan bc;', 'int ia[2];']
+    DECLS = ['clock x, y;', 'hybrid clock hx;', 'int i;', 'bool b;', 'double d = 0.5;', 'const double KD = 2.5;', 'broadcast chan bc;', 'int ia[2];', 'clock ca[2];']
     EXTRA = [('chan c;', None), ('clock c = 2.5;', None), ('urgent chan uc;', None), ('broadcast chan p1, p2; chan priority p1 < p2;', None), ('clock cc = 2;', None), ('int unusedv;', None)]
 
     def test(args):
